@@ -6,14 +6,21 @@ package drv
 // and builds this file there; the packages are used through their public API only.
 //
 // Input: the cases printed by spec/NamingGen.tla. Line 0 lists the templates (character
-// tokens) with the parse the specification made of them; every other line is one identifier:
+// tokens) with the parse the specification made of them and `via`, the way the templates are
+// handed over: "direct" = format.FileNamingFormat(template, id); "config" = the way of the
+// generators' --style flag: cfg, err := config.NewConfig(template), rejected if err != nil,
+// else format.FileNamingFormat(cfg.NamingFormat, id) (tools/god/config is copied as well).
+// Every other line is one identifier:
 //   id : character tokens of the identifier (input)
 //   n  : per template either e=true (the statement promises a rejection) or s = the
 //        promised file name (character tokens)
 //   rt : the camel -> snake round trip is promised for this identifier
-// The driver maps tokens to runes, calls format.FileNamingFormat / stringx.From(..).ToCamel /
-// ToSnake inside recover() and compares. Determinism ("depends on nothing but these inputs")
-// is observed by evaluating every pair again sequentially and from two concurrent goroutines.
+//   sn, cm : d=true and s = the snake / camel form where the specification defines it
+// The driver maps tokens to runes / bytes, calls the code inside recover() and compares.
+// Determinism ("depends on nothing but these inputs") is observed by evaluating every pair and
+// both conversions again sequentially and from two concurrent goroutines. The tokens xff / xc3
+// are single bytes that are no UTF-8: the specification copies them; the code may copy them or
+// put U+FFFD in their place, so results for such inputs are compared modulo that replacement.
 
 import (
 	"bufio"
@@ -25,14 +32,82 @@ import (
 	"sync"
 	"testing"
 	"unicode"
+	"unicode/utf8"
 
+	"github.com/gotid/god/tools/god/config"
 	"github.com/gotid/god/tools/god/util/format"
 	"github.com/gotid/god/tools/god/util/stringx"
 	kit "github.com/gotid/god/tools/god/zz_verif/kit"
 )
 
 // named tokens of spec/Naming.tla; every other token is the character itself
-var c20Runes = map[string]string{"zh": "中", "di": "ı", "ta": "ɐ", "sp": " ", "ls": "ſ", "Id": "İ", "ax": "ⱥ"}
+var c20Runes = map[string]string{"zh": "中", "di": "ı", "ta": "ɐ", "sp": " ", "ls": "ſ", "Id": "İ", "ax": "ⱥ",
+	"tb": "\t", "nl": "\n", "nb": "\u00a0", "is": "\u3000",
+	"Ax": "\u023a", "tx": "\u2c66", "Tx": "\u023e", "ee": "\u00e9", "Ee": "\u00c9", "Kv": "\u212a",
+	"xff": "\xff", "xc3": "\xc3"}
+
+// how the templates reach FileNamingFormat (header field `via`); set once, before any case is evaluated
+var c20Via = "direct"
+
+// key segment and description of the call under test
+func c20Fam() string {
+	if c20Via == "config" {
+		return "config"
+	}
+	return "name"
+}
+
+func c20Where(tpl, id string) string {
+	if c20Via == "config" {
+		return fmt.Sprintf("cfg, err := config.NewConfig(%q); FileNamingFormat(cfg.NamingFormat, %q)", tpl, id)
+	}
+	return fmt.Sprintf("FileNamingFormat(%q, %q)", tpl, id)
+}
+
+// c20Header reads line 0 of a cases file.
+func c20Header(one kit.M) ([]c20Template, error) {
+	if one["templates"] == nil {
+		return nil, fmt.Errorf("cases file has no template header")
+	}
+	switch via := kit.Str(one["via"]); via {
+	case "direct", "config":
+		c20Via = via
+	default:
+		return nil, fmt.Errorf("header: unknown via %q", via)
+	}
+	var tpls []c20Template
+	for _, e := range kit.List(one["templates"]) {
+		d := e.(map[string]any)
+		class := kit.Str(d["why"])
+		if kit.Bool(d["valid"]) {
+			class = kit.Str(d["gs"]) + "/" + kit.Str(d["ds"])
+		}
+		if ws := kit.Str(d["ws"]); ws != "no" && ws != "none" && ws != "" {
+			class += ":space-" + ws
+		}
+		tpls = append(tpls, c20Template{text: c20Text(d["t"]), class: class})
+	}
+	return tpls, nil
+}
+
+// c20Same: got is the promised text; for an input that is no UTF-8, modulo "invalid byte <-> U+FFFD"
+func c20Same(input, got, want string) bool {
+	if got == want {
+		return true
+	}
+	if utf8.ValidString(input) {
+		return false
+	}
+	return string([]rune(got)) == string([]rune(want))
+}
+
+// class suffix of a conversion key
+func c20ConvClass(id string) string {
+	if !utf8.ValidString(id) {
+		return ":invalid-utf8"
+	}
+	return c20CaseLength(id)
+}
 
 func c20Text(v any) string {
 	var b strings.Builder
@@ -63,8 +138,54 @@ func c20Name(tpl, id string) (r c20Result) {
 			r = c20Result{panic: fmt.Sprint(p)}
 		}
 	}()
+	if c20Via == "config" {
+		// the generators: gogen.DoGenProject, rpc generator, model commands
+		cfg, err := config.NewConfig(tpl)
+		if err != nil {
+			return c20Result{err: true}
+		}
+		tpl = cfg.NamingFormat
+	}
 	s, err := format.FileNamingFormat(tpl, id)
 	return c20Result{s: s, err: err != nil}
+}
+
+// the two conversions of one identifier
+type c20Convs struct {
+	camel, camelPanic string
+	snake, snakePanic string
+}
+
+func c20Convert(id string) (r c20Convs) {
+	r.camel, r.camelPanic = c20Conv(func() string { return stringx.From(id).ToCamel() })
+	r.snake, r.snakePanic = c20Conv(func() string { return stringx.From(id).ToSnake() })
+	return r
+}
+
+// c20JudgeConv compares the conversions of id with the specification (sn / cm of the case); it reports
+// through fail(class, msg) with class = "snake:differs..." etc.
+func c20JudgeConv(tc kit.M, id string, got c20Convs, fail func(class, msg string)) {
+	sfx := c20ConvClass(id)
+	for _, f := range []struct{ name, fn, field, got, pv string }{
+		{"camel", "ToCamel", "cm", got.camel, got.camelPanic},
+		{"snake", "ToSnake", "sn", got.snake, got.snakePanic},
+	} {
+		where := fmt.Sprintf("stringx.From(%q).%s()", id, f.fn)
+		if f.pv != "" {
+			fail(f.name+":panic", fmt.Sprintf("%s panicked: %s", where, f.pv))
+			continue
+		}
+		if utf8.ValidString(id) && !utf8.ValidString(f.got) {
+			fail(f.name+":broken-utf8"+sfx, fmt.Sprintf("%s = %q: the input is UTF-8, the result is not (a character was cut)", where, f.got))
+			continue
+		}
+		w, _ := tc[f.field].(map[string]any)
+		if w != nil && kit.Bool(w["d"]) {
+			if want := c20Text(w["s"]); !c20Same(id, f.got, want) {
+				fail(f.name+":differs"+sfx, fmt.Sprintf("%s = %q; the specification's conversion gives %q", where, f.got, want))
+			}
+		}
+	}
 }
 
 func c20Conv(f func() string) (s string, pv string) {
@@ -108,13 +229,16 @@ func runC20Case(c kit.Case, tpls []c20Template, rep *kit.Reporter) []kit.Verdict
 	for k, t := range tpls {
 		first[k] = c20Name(t.text, id)
 	}
+	conv := c20Convert(id)
 	// again, concurrently, in the opposite order
 	var wg sync.WaitGroup
 	again := [2][]c20Result{make([]c20Result, len(tpls)), make([]c20Result, len(tpls))}
+	var convAgain [2]c20Convs
 	for g := 0; g < 2; g++ {
 		wg.Add(1)
 		go func(g int) {
 			defer wg.Done()
+			convAgain[g] = c20Convert(id)
 			for k := len(tpls) - 1; k >= 0; k-- {
 				again[g][k] = c20Name(tpls[k].text, id)
 			}
@@ -125,8 +249,12 @@ func runC20Case(c kit.Case, tpls []c20Template, rep *kit.Reporter) []kit.Verdict
 		want := names[k].(map[string]any)
 		got := first[k]
 		v.Steps++
-		where := fmt.Sprintf("FileNamingFormat(%q, %q)", t.text, id)
+		where := c20Where(t.text, id)
 		sfx := c20CaseLength(t.text)
+		if !utf8.ValidString(t.text + id) {
+			sfx = ":invalid-utf8"
+		}
+		fam := "C20:" + c20Fam()
 		wantErr := kit.Bool(want["e"])
 		wantS := ""
 		if !wantErr {
@@ -137,27 +265,31 @@ func runC20Case(c kit.Case, tpls []c20Template, rep *kit.Reporter) []kit.Verdict
 		}
 		switch {
 		case got.panic != "":
-			fail(k, "C20:name:panic:"+t.class+sfx, fmt.Sprintf("%s panicked: %s; the specification %s", where, got.panic, c20Want(wantErr, wantS)))
+			fail(k, fam+":panic:"+t.class+sfx, fmt.Sprintf("%s panicked: %s; the specification %s", where, got.panic, c20Want(wantErr, wantS)))
 		case wantErr && !got.err:
-			fail(k, "C20:name:missing-error:"+t.class+sfx, fmt.Sprintf("%s = %q; the specification rejects the template (%s)", where, got.s, t.class))
+			fail(k, fam+":missing-error:"+t.class+sfx, fmt.Sprintf("%s = %q; the specification rejects the template (%s)", where, got.s, t.class))
 		case !wantErr && got.err:
-			fail(k, "C20:name:spurious-error:"+t.class+sfx, fmt.Sprintf("%s was rejected; the specification renders %q", where, wantS))
-		case !wantErr && got.s != wantS:
-			fail(k, "C20:name:differs:"+t.class+sfx, fmt.Sprintf("%s = %q; the specification renders %q", where, got.s, wantS))
+			fail(k, fam+":spurious-error:"+t.class+sfx, fmt.Sprintf("%s was rejected; the specification renders %q", where, wantS))
+		case !wantErr && !c20Same(t.text+id, got.s, wantS):
+			fail(k, fam+":differs:"+t.class+sfx, fmt.Sprintf("%s = %q; the specification renders %q", where, got.s, wantS))
 		}
 		if again[0][k] != got || again[1][k] != got {
-			fail(k, "C20:name:nondeterministic", fmt.Sprintf("%s gave %+v, then %+v and %+v", where, got, again[0][k], again[1][k]))
+			fail(k, fam+":nondeterministic", fmt.Sprintf("%s gave %+v, then %+v and %+v", where, got, again[0][k], again[1][k]))
 		}
 	}
-	camel, pv := c20Conv(func() string { return stringx.From(id).ToCamel() })
-	v.Steps++
-	if pv != "" {
-		fail(len(tpls), "C20:camel:panic", fmt.Sprintf("stringx.From(%q).ToCamel() panicked: %s", id, pv))
+	// the conversions: no panic, nothing cut, the specification's conversion where it is defined, and the same
+	// value whenever and wherever they are evaluated
+	camel := conv.camel
+	v.Steps += 2
+	c20JudgeConv(tc, id, conv, func(class, msg string) { fail(len(tpls), "C20:"+class, msg) })
+	if tc["sn"] != nil && kit.Bool(tc["sn"].(map[string]any)["d"]) {
+		rep.Count("snake_compared", 1)
 	}
-	_, pv = c20Conv(func() string { return stringx.From(id).ToSnake() })
-	v.Steps++
-	if pv != "" {
-		fail(len(tpls)+1, "C20:snake:panic", fmt.Sprintf("stringx.From(%q).ToSnake() panicked: %s", id, pv))
+	if tc["cm"] != nil && kit.Bool(tc["cm"].(map[string]any)["d"]) {
+		rep.Count("camel_compared", 1)
+	}
+	if convAgain[0] != conv || convAgain[1] != conv {
+		fail(len(tpls), "C20:conversion:nondeterministic", fmt.Sprintf("ToCamel/ToSnake of %q gave %+v, then %+v and %+v", id, conv, convAgain[0], convAgain[1]))
 	}
 	back, pv := c20Conv(func() string { return stringx.From(camel).ToSnake() })
 	if pv != "" {
@@ -215,17 +347,9 @@ func TestVerifC20(t *testing.T) {
 			return
 		}
 		if i == 0 {
-			if one["templates"] == nil {
-				rep.Put(kit.Verdict{Infra: true, Msg: "cases file has no template header"})
+			if tpls, err = c20Header(one); err != nil {
+				rep.Put(kit.Verdict{Infra: true, Msg: err.Error()})
 				return
-			}
-			for _, e := range kit.List(one["templates"]) {
-				d := e.(map[string]any)
-				class := kit.Str(d["why"])
-				if kit.Bool(d["valid"]) {
-					class = kit.Str(d["gs"]) + "/" + kit.Str(d["ds"])
-				}
-				tpls = append(tpls, c20Template{text: c20Text(d["t"]), class: class})
 			}
 			continue
 		}
@@ -235,7 +359,7 @@ func TestVerifC20(t *testing.T) {
 			rep.Put(v)
 		}
 		if agreed && len(kept) < 60000 { // later passes only for cases whose first evaluation agreed
-			kept = append(kept, c20Kept{i, one})
+			kept = append(kept, c20Kept{i, one, c20Convert(c20Text(one["id"]))})
 		}
 	}
 	if err := sc.Err(); err != nil {
@@ -245,13 +369,13 @@ func TestVerifC20(t *testing.T) {
 	// later passes in the same process: reversed, then seeded order; every result is compared with
 	// the specification again (the answer must not depend on what was evaluated before)
 	for k := len(kept) - 1; k >= 0; k-- {
-		for _, v := range c20Again(kept[k].index, kept[k].tc, tpls, "second pass (reversed order)") {
+		for _, v := range c20Again(kept[k].index, kept[k].tc, tpls, kept[k].conv, "second pass (reversed order)") {
 			c20PutLater(rep, v)
 		}
 	}
 	rnd := rand.New(rand.NewSource(kit.Seed() + int64(shard)))
 	for _, k := range rnd.Perm(len(kept)) {
-		for _, v := range c20Again(kept[k].index, kept[k].tc, tpls, "third pass (seeded order)") {
+		for _, v := range c20Again(kept[k].index, kept[k].tc, tpls, kept[k].conv, "third pass (seeded order)") {
 			c20PutLater(rep, v)
 		}
 	}
@@ -270,4 +394,5 @@ func c20PutLater(rep *kit.Reporter, v kit.Verdict) {
 type c20Kept struct {
 	index int
 	tc    kit.M
+	conv  c20Convs // the conversions of the identifier as the first pass saw them
 }
